@@ -20,6 +20,12 @@ REPORT_TEXT = {
 SIDE_FILES = {"info": "side-info.tsv", "rest": "side-rest.txt", "wildcard": "side-wildcard.txt"}
 
 
+def renamed(d, name):
+    """The adapter definition d under another name."""
+    assert d["spec"].startswith(d["name"] + "=")
+    return dict(d, name=name, spec=name + d["spec"][len(d["name"]):])
+
+
 # ------------------------------------------------------------------------ scenario
 @st.composite
 def routing_case(draw, sub, focus="filters"):
@@ -31,7 +37,7 @@ def routing_case(draw, sub, focus="filters"):
         demux = "normal"
         if paired and draw(st.integers(0, 2)) == 0:
             demux = "combinatorial"
-    pair_adapters = paired and demux != "combinatorial" and draw(st.integers(0, 7)) == 0
+    pair_adapters = paired and demux != "combinatorial" and draw(st.integers(0, 3 if focus == "pairs" else 7)) == 0
     which = draw(st.sampled_from(["both", "both", "r1", "r2"])) if paired else "r1"
     if demux == "combinatorial":
         which = "both"
@@ -50,6 +56,16 @@ def routing_case(draw, sub, focus="filters"):
     kinds = ["back", "back", "front", "prefix", "suffix", "anywhere"]
     ad1 = [draw(scen.adapter_def(i, 0, kinds=kinds, allow_linked=False, allow_params=False)) for i in range(n1)]
     ad2 = [draw(scen.adapter_def(i, 1, kinds=kinds, allow_linked=False, allow_params=False)) for i in range(n2)]
+    if pair_adapters and n1 >= 2 and draw(st.integers(0, 2)) == 0:
+        # two pairs that share their R1 adapter (one i5 index combined with several i7 indexes): the pair is then
+        # told apart by R2 alone, and both mates must still be attributed to the same rank
+        ad1[1] = renamed(ad1[0], ad1[1]["name"])
+        if demux is None and draw(st.booleans()):
+            demux = "normal"  # ... and the rank decides the destination file
+    if demux and len(ad1) >= 2 and draw(st.integers(0, 3)) == 0:
+        # adapter names are case-sensitive: names that differ only in case are different destinations
+        for d, nm in zip(ad1, ["bc", "BC", "Bc"]):
+            d.update(renamed(d, nm))
     glob = {"no_index": True}
     if draw(st.booleans()):
         glob["e"] = draw(st.sampled_from([0, 0.1, 0.2]))
@@ -57,7 +73,7 @@ def routing_case(draw, sub, focus="filters"):
         glob["O"] = draw(st.sampled_from([1, 3, 4]))
     o = {"times": times, "action": action, "pair_adapters": pair_adapters}
     if draw(st.integers(0, 3)) == 0:
-        o["cut1"] = [draw(st.sampled_from([1, 2, -2, 4]))]
+        o["cut1"] = [draw(st.sampled_from([1, 2, -2, 4, 0]))]
     if fastq and draw(st.integers(0, 3)) == 0:
         o["q1_arg"] = draw(st.sampled_from(["10", "20", "5,15"]))
     if fastq and draw(st.integers(0, 4)) == 0:
